@@ -1041,17 +1041,47 @@ func (m MethodParamFromInterfaceRepr) String() string {
 	return sb.String()
 }
 
+// returnConsumerParts returns the result site, the named-return flag and the return statement of a
+// consumer that stands for a value being returned from a function. Besides UseAsReturn, these are
+// the consumers created for the error result of an "error returning" function: a function whose
+// single result implements `error` has all its return statements consumed this way.
+func returnConsumerParts(t *ConsumeTrigger) (key *RetAnnotationKey, isNamedReturn bool, retStmt *ast.ReturnStmt, ok bool) {
+	var ann Key
+	switch c := t.Annotation.(type) {
+	case *UseAsReturn:
+		ann, isNamedReturn, retStmt = c.Ann, c.IsNamedReturn, c.RetStmt
+	case *UseAsErrorResult:
+		ann, isNamedReturn, retStmt = c.Ann, c.IsNamedReturn, c.RetStmt
+	case *UseAsErrorRetWithNilabilityUnknown:
+		ann, isNamedReturn, retStmt = c.Ann, c.IsNamedReturn, c.RetStmt
+	default:
+		return nil, false, nil, false
+	}
+	key, ok = ann.(*RetAnnotationKey)
+	return key, isNamedReturn, retStmt, ok
+}
+
+// IsReturnConsumer returns whether the given consume trigger stands for a value being returned
+// from a function as one of its results, i.e., whether it can be given to DuplicateReturnConsumer.
+func IsReturnConsumer(t *ConsumeTrigger) bool {
+	_, _, _, ok := returnConsumerParts(t)
+	return ok
+}
+
 // DuplicateReturnConsumer duplicates a given consume trigger, assuming the given consumer trigger
-// is for a UseAsReturn annotation.
+// is a return consumer (see IsReturnConsumer). The duplicate is a UseAsReturn of the call-site
+// result site.
 func DuplicateReturnConsumer(t *ConsumeTrigger, location token.Position) *ConsumeTrigger {
-	ann := t.Annotation.(*UseAsReturn)
-	key := ann.Ann.(*RetAnnotationKey)
+	key, isNamedReturn, retStmt, ok := returnConsumerParts(t)
+	if !ok {
+		panic(fmt.Sprintf("expected a return consumer but got: %T", t.Annotation))
+	}
 	return &ConsumeTrigger{
 		Annotation: &UseAsReturn{
 			TriggerIfNonNil: &TriggerIfNonNil{
 				Ann: NewCallSiteRetKey(key.FuncDecl, key.RetNum, location)},
-			IsNamedReturn: ann.IsNamedReturn,
-			RetStmt:       ann.RetStmt,
+			IsNamedReturn: isNamedReturn,
+			RetStmt:       retStmt,
 		},
 		Expr:         t.Expr,
 		Guards:       t.Guards.Copy(), // TODO: probably, we might not need a deep copy all the time
